@@ -26,7 +26,7 @@ PROPERTY = 'C05'
 def _run(S, d, lmin, lmax, version, boundary, out_len, rounds, max_sel, reevaluate, f, tag):
     SD, GO, G, EC, RO, RC = dw.mods()
     sa, op, grid = dw.make_instance(f, [0.0] * d, [1.0] * d, boundary=boundary, version=version)
-    est = drv.ScriptedRoundErrors(S, sa, d, rounds, max_sel, tag='r')
+    est = drv.ScriptedRoundErrors(sa, d, rounds, max_sel)
     op.validation_set = None
     res = sa.performSpatiallyAdaptiv(lmin, lmax, est, tol=0.0, max_evaluations=None, print_output=False, reevaluate_at_end=reevaluate)
     return sa, op, res
